@@ -545,6 +545,20 @@ func redactXml(obj interface{}, path string) (xmlValue []byte, err error) {
 		return
 	}
 
+	// `SetValueForPath` asserts that the parent of the last key is a map. `ValueForPath` returns
+	// the first match: for a repeated element whose first occurrence has no children
+	// (`<b>x</b><b><item>y</item></b>` with the path `b.item`) it is not one.
+	pathKeys := strings.Split(path, ".")
+	var parent interface{}
+	parent, err = mv.ValueForPath(strings.Join(pathKeys[:len(pathKeys)-1], "."))
+	if err != nil {
+		return
+	}
+	if _, ok := parent.(map[string]interface{}); parent != nil && !ok {
+		err = errors.New("Not an element with children")
+		return
+	}
+
 	err = mv.SetValueForPath(REDACTED, path)
 	if err != nil {
 		return
